@@ -272,6 +272,19 @@ def compatible (notAfter : Int) (root : Option (Nat × Bool)) (ls : List LogInfo
   | none => t
   | some (rt, isCA) => if isCA then t.filter (rootOk rt) else []
 
+/-- `Distributor.addSomeChain` (closure `compatibleLogsAndChain`): which root the compatibility filter is given.
+`known`: the `logRoots` entry of every log that has a client (usable, pending or qualified); `chainRoot ∈ merged` stands
+for "`ValidateChain` finds a path to the merged root pool". Outer `none`: the call is refused (the chain does not verify
+although root data is complete). In the fallback (chain does not verify, root data incomplete) the code passes no root at
+all when `Gen.Policy.fallbackKeepsKnownRootLogs`; otherwise only logs without root data are kept, which is what
+`compatible` does for a root that is in no known set. -/
+def chooseRoot (checkDisabled : Bool) (chainRoot : Nat) (known : List (Option (List Nat))) : Option (Option (Nat × Bool)) :=
+  if checkDisabled then some none
+  else if chainRoot ∈ known.flatMap (fun k => k.getD []) then some (some (chainRoot, true))
+  else if known.all (fun k => k.isSome) then none
+  else if Gen.Policy.fallbackKeepsKnownRootLogs then some none
+  else some (some (chainRoot, true))
+
 inductive Pol | chrome | apple
 deriving DecidableEq, Repr
 
@@ -296,5 +309,12 @@ def rawGroups (p : Pol) (months : Int) (ls : List LogInfo) : Cfg :=
 def policyCfg (p : Pol) (months : Int) (ls : List LogInfo) : Option Cfg :=
   let gs := rawGroups p months ls
   if gs.all (fun g => (Gen.Policy.setMinInclusions g.min g.logs.length).isSome) then some gs else none
+
+/-- `pendingLogsPolicy.LogsByGroup` on `pendingQualifiedLl` (the logs in state Pending or Qualified): one base group
+over all of them, minimum `Gen.Policy.pendingIncCount`; with `loadPendingLogs` a second, discarded `GetSCTs` call runs
+on it concurrently, with no temporal or root filter. -/
+def pendingCfg (pls : List LogInfo) : Option Cfg :=
+  let g : Group := ⟨baseName, dedup (pls.map (·.id)), Gen.Policy.pendingIncCount, true⟩
+  if (Gen.Policy.setMinInclusions g.min g.logs.length).isSome then some [g] else none
 
 end CTV.Model.Races
